@@ -93,8 +93,9 @@ class InstrDict(dict):
 
 
 class IpcDriver:
-    def __init__(self, callers):
+    def __init__(self, callers, closers=()):
         common.use_repo()
+        self.closers = {int(c) for c in closers}
         from vloop import VLoop
         import klongpy.sys_fn_ipc as ipc
         self.ipc = ipc
@@ -170,7 +171,11 @@ class IpcDriver:
         def body():
             self.events.append({"ev": "begin", "c": c})
             try:
-                r = self.nc.call(("req", c))
+                if c in self.closers:
+                    self.nc.close()                     # call(KGRemoteCloseConnection) + cleanup
+                    r = ("resp", c)
+                else:
+                    r = self.nc.call(("req", c))
                 out = {"ev": "end", "c": c, "out": "value", "id": int(r[1]) if isinstance(r, tuple) and len(r) == 2 else -1}
             except Blocked:
                 raise
@@ -190,10 +195,13 @@ class IpcDriver:
 
     # ------------------------------------------------------------------------------------- steps
     def frame_for(self, c, partial=False):
+        if c == 0:                                      # a close REQUEST from the peer (nobody waits for this id)
+            import uuid
+            return self.ipc.encode_message(uuid.uuid4(), self.ipc.KGRemoteCloseConnection())
         mid = self.id_of.get(f"c{c}")
         if mid is None:
             return b""
-        fr = self.ipc.encode_message(mid, ("resp", c))
+        fr = self.ipc.encode_message(mid, self.ipc.KGRemoteCloseConnection() if c in self.closers else ("resp", c))
         return fr[:len(fr) - 3] if partial else fr
 
     def do_caller_step(self, st):
@@ -216,7 +224,7 @@ class IpcDriver:
             if st["a"] in ("ccheck", "cregister", "cschedule"):
                 self.pos += 1
                 self.do_caller_step(st)
-            elif st["a"] in ("prespond", "pcut"):
+            elif st["a"] in ("prespond", "pcut", "pclosereq"):
                 self.pos += 1
                 self.do_peer_step(st)
             else:
@@ -240,7 +248,7 @@ class IpcDriver:
             a = st["a"]
             if a in ("ccheck", "cregister", "cschedule"):
                 self.do_caller_step(st)
-            elif a in ("prespond", "pcut"):
+            elif a in ("prespond", "pcut", "pclosereq"):
                 self.do_peer_step(st)
             elif a == "lsend":
                 name = f"c{st['c']}"
